@@ -432,6 +432,49 @@ def case_class_defaults(ctx, i, rng):
     compare(ctx, spec, outs, inputs, types, "channels")
 
 
+def case_class_group(ctx, i, rng):
+    """a class group whose class-typed parameter has a default spec: another class for it, given through every channel
+    including the whole-group option on argv and the whole-group environment variable"""
+    from jsonargparse import ActionConfigFile, ArgumentParser
+
+    def build():
+        p = ArgumentParser(exit_on_error=False, env_prefix="APP", default_env=False)
+        p.add_argument("--cfg", action=ActionConfigFile)
+        p.add_class_arguments(zoo.HolderLazy, "trainer")
+        return p
+
+    cls, ia = rng.choice([("SubB", {"c": 0.25}), ("SubList", {"items": [1]}), ("SubA", {"b": "other"}), ("Base", {"a": 9})])
+    child = {"class_path": f"vf.fixtures.zoo.{cls}", "init_args": ia}
+    grp = {"child": child}
+    if rng.random() < 0.5:
+        grp["n"] = 3
+    doc = {"trainer": grp}
+    text = json.dumps(doc)
+    outs = {
+        "object.nested": call(build().parse_object, copy.deepcopy(doc)),
+        "string.nested": call(build().parse_string, text),
+        "argv.cfg_string": call(build().parse_args, [f"--cfg={text}"]),
+        "argv.dotted": call(build().parse_args, [f"--trainer.child={child['class_path']}"] + [f"--trainer.child.{k}={P.argv_text(v)}" for k, v in ia.items()] + ([f"--trainer.n={grp['n']}"] if "n" in grp else [])),
+        "argv.group_option": call(build().parse_args, [f"--trainer={json.dumps(grp)}"]),
+        "env.group_variable": call(build().parse_env, {"APP_TRAINER": json.dumps(grp)}),
+    }
+    ctx.evaluation(("c05-class-group", cls, "n" in grp))
+    ctx.count("st.class_group_with_default_spec")
+    ref = outs["object.nested"]
+    for name, o in outs.items():
+        if name == "object.nested":
+            continue
+        ctx.count("mon.channel_pairs_compared")
+        if o.accepted != ref.accepted:
+            ctx.violation("channels", f"decision-differs/{name}-vs-object/class-group", dict(settings=doc, object_outcome=ref.brief(), channel_outcome=o.brief()))
+            return
+        if o.accepted:
+            d = same_steps(strip_prov(ref.value, {"cfg"}), strip_prov(o.value, {"cfg"}))
+            if d:
+                ctx.violation("channels", f"value-differs/{name}-vs-object/class-group", dict(settings=doc, at=steps_str(d[0]), why=d[1], object_result=short(ref.value, 400), channel_result=short(o.value, 400)))
+                return
+
+
 def case_once_only(ctx, i, rng):
     """values that an earlier, more lenient Union member would convert again if it saw the already converted result
     (a range read as a sequence, a UUID read as an int): every channel converts exactly once"""
@@ -467,5 +510,7 @@ def run_shard(ctx):
             case_class_defaults(ctx, i, rng)
         elif i % 24 == 4:
             case_once_only(ctx, i, rng)
+        elif i % 24 == 10:
+            case_class_group(ctx, i, rng)
         else:
             case_channels(ctx, i, rng)
